@@ -9,17 +9,17 @@ variable {K : Type} [Scalar K]
 /-! ### `finish` / `finish_closed` written out -/
 
 /-- the end cap emitted by `finish` -/
-def c04_endCap (style : StrokeStyle K) (last_pt return_p : Point K) : List (PathEl K) :=
+def c04_endCap (tol : K) (style : StrokeStyle K) (last_pt return_p : Point K) : List (PathEl K) :=
   match style.end_cap with
   | 0 => [.LineTo return_p]
-  | 2 => roundCap last_pt (last_pt - return_p)
+  | 2 => roundCap tol last_pt (last_pt - return_p)
   | _ => squareCap false last_pt (last_pt - return_p)
 
 /-- the start cap emitted by `finish` -/
-def c04_startCap (style : StrokeStyle K) (start_pt : Point K) (start_norm : Vec2 K) : List (PathEl K) :=
+def c04_startCap (tol : K) (style : StrokeStyle K) (start_pt : Point K) (start_norm : Vec2 K) : List (PathEl K) :=
   match style.start_cap with
   | 0 => [.ClosePath]
-  | 2 => roundCap start_pt start_norm
+  | 2 => roundCap tol start_pt start_norm
   | _ => squareCap true start_pt start_norm
 
 theorem c04_isEmpty_false {α : Type} {l : List α} (h : l ≠ []) : l.isEmpty = false := by
@@ -34,7 +34,7 @@ theorem c04_finish_empty (c : StrokeCtx K) (style : StrokeStyle K) (he : c.forwa
 theorem c04_finish_eq (c : StrokeCtx K) (style : StrokeStyle K) (hne : c.forward_path ≠ []) {rp : Point K}
     {rev : List (PathEl K)} (h1 : lastEndPoint c.backward_path = some rp) (h2 : extendReversed c.backward_path = some rev) :
     c.finish style = some { c with
-      output := c.output ++ c.forward_path ++ c04_endCap style c.last_pt rp ++ rev ++ c04_startCap style c.start_pt c.start_norm,
+      output := c.output ++ c.forward_path ++ c04_endCap c.join_thresh style c.last_pt rp ++ rev ++ c04_startCap c.join_thresh style c.start_pt c.start_norm,
       forward_path := [], backward_path := [] } := by
   unfold StrokeCtx.finish
   simp only [c04_isEmpty_false hne, Bool.false_eq_true, if_false, h1, h2]
